@@ -43,6 +43,7 @@ where
             source: self.source,
             map: self.map,
             buffer: VecDeque::new(),
+            done: false,
         }
     }
 }
@@ -52,6 +53,8 @@ pub struct MapSourceIterator<S, F, T, E> {
     source: S,
     map: F,
     buffer: VecDeque<Result<T, E>>,
+    /// set once the source is exhausted or has failed: it must not be polled again
+    done: bool,
 }
 
 impl<S, F, T> Iterator for MapSourceIterator<S, F, T, S::Error>
@@ -61,7 +64,7 @@ where
 {
     type Item = Result<T, S::Error>;
     fn next(&mut self) -> Option<Result<T, S::Error>> {
-        let mut remaining = true;
+        let mut remaining = !self.done;
         let mut buffer = VecDeque::new();
         std::mem::swap(&mut self.buffer, &mut buffer);
         while buffer.is_empty() && remaining {
@@ -76,6 +79,9 @@ where
                     buffer.push_back(Err(err));
                     remaining = false;
                 }
+            }
+            if !remaining {
+                self.done = true;
             }
         }
         std::mem::swap(&mut self.buffer, &mut buffer);
